@@ -120,12 +120,18 @@ type faultCase struct {
 	N   int64
 	// Skew (remote-termination kinds only): same = both nodes have the same creation stamp, diff = they differ
 	Skew string
+	// Map: the connection carries an atom mapping on the survivor's side that renames the victim's
+	// registered name and event (the survivor says c14target_a / c14event_a)
+	Map bool
 }
 
 func (fc faultCase) id() string {
 	k := fc.Kind
 	if fc.Skew != "" {
 		k += "-" + fc.Skew
+	}
+	if fc.Map {
+		k += "-atommap"
 	}
 	return fmt.Sprintf("F/%s/%s/%s/%s", fc.Dialer, k, fullScript()[fc.Op].Name, fc.Pos)
 }
@@ -172,6 +178,29 @@ func enumerate(pr *profile, everyByte bool) []faultCase {
 				out = append(out, dup)
 			}
 			n++
+		}
+	}
+	// remote termination over a connection with an atom mapping (same creation stamps)
+	base := len(out)
+	for i := 0; i < base; i++ {
+		if (out[i].Kind == "killtarget" || out[i].Kind == "customexit") && out[i].Skew == "same" {
+			m := out[i]
+			m.Map = true
+			out = append(out, m)
+		}
+	}
+	return out
+}
+
+// mappedCore: the atom-mapping cases every quick run contains: all relations established, then the target terminates
+func mappedCore(pr *profile) []faultCase {
+	var out []faultCase
+	script := fullScript()
+	for _, kind := range []string{"killtarget", "customexit"} {
+		for i, op := range script {
+			if op.Name == "callpid" || op.Name == "linkalias" {
+				out = append(out, faultCase{Dialer: pr.Dialer, Kind: kind, Op: i, Pos: "between", Skew: "same", Map: true})
+			}
 		}
 	}
 	return out
@@ -436,7 +465,7 @@ func runFaultCase(reg uint16, fc faultCase, pr *profile) {
 	var err error
 	for attempt := 0; attempt < 3; attempt++ {
 		f = &faultCtl{}
-		p, err = newPairWith(reg, id, fc.Dialer, f, true, fc.Skew)
+		p, err = newPairWith(reg, id, fc.Dialer, f, true, fc.Skew, pairOpt{MapNames: fc.Map})
 		if err != nil {
 			continue
 		}
@@ -538,10 +567,14 @@ func runFaultCase(reg uint16, fc faultCase, pr *profile) {
 			nominal = time.Duration(gen.DefaultRequestTimeout) * time.Second
 		}
 		var ctlLate atomic.Int64
+		var ctlFired atomic.Bool
 		tStart := time.Now()
 		var ctl *time.Timer
 		if nominal > 0 {
-			ctl = time.AfterFunc(nominal, func() { ctlLate.Store(int64(time.Since(tStart) - nominal)) })
+			ctl = time.AfterFunc(nominal, func() {
+				ctlLate.Store(int64(time.Since(tStart) - nominal))
+				ctlFired.Store(true)
+			})
 		}
 		r, ok := p.do(op)
 		if ctl != nil {
@@ -576,7 +609,12 @@ func runFaultCase(reg uint16, fc faultCase, pr *profile) {
 				limit += 6 * time.Second
 			}
 			if limit > 0 && r.Dur > limit {
-				if late := time.Duration(ctlLate.Load()); late > 300*time.Millisecond {
+				late := time.Duration(ctlLate.Load())
+				if !ctlFired.Load() && nominal > 0 {
+					// the control timer is due but its callback has not even run yet: at least this late
+					late = time.Since(tStart) - nominal
+				}
+				if late > 300*time.Millisecond {
 					v.notes = append(v.notes, fmt.Sprintf("%s failed after %v (> %v), but the harness' own %v timer fired %v late: process starved, not judged", op.Name, r.Dur, limit, nominal, late))
 					lateUnderLoad.Add(1)
 				} else {
@@ -722,6 +760,9 @@ func runFaultCase(reg uint16, fc faultCase, pr *profile) {
 	events += int64(len(ops))
 
 	key := fmt.Sprintf("%s/%s/%s/%s", fc.Dialer, fc.Kind, script[fc.Op].Name, posClass(fc.Pos))
+	if fc.Map {
+		key += "/atommap"
+	}
 	cs := hk.Case{ID: id, Scenario: "fault-" + fc.Kind, Key: key, Nontrivial: nontrivial, Events: events}
 	detail := map[string]any{"fault": fc, "ops": ops, "fired": fired, "inflight": inflight, "relations_before_fault": completedBefore, "expectations": len(c.exps), "rejoin_loop": loop, "survived_by_rejoin": survived, "notes": v.notes}
 	var logs []string
